@@ -501,6 +501,12 @@ class Inliner:
                 return h, (None if not h.implicit_first else None)
             if h.implicit_first and _is_classmethod(h.f):
                 return None, None
+            if isinstance(recv, ast.Call) and isinstance(recv.func, ast.Name) and recv.func.id == 'super':
+                # super().helper(..): the helper runs on the very object the calling method runs on
+                recv = ast.copy_location(ast.Name(id='self', ctx=ast.Load()), recv)
+            if not f.attr.startswith('_') and not (isinstance(recv, ast.Name) and recv.id == 'self'):
+                # a public method name (close, write, update ...) on another receiver is, as far as this analysis can tell, the method of another type
+                return None, None
             return h, recv
         return None, None
 
